@@ -60,9 +60,15 @@ VARIANTS = [
     fire("c01-usepulses-dropped",
          [(GE, "    for usepulses in circ.usepulses:\n        program.append(generate_jaqal_usepulses(usepulses))\n    if circ.usepulses:\n        program.append(\"\\n\")\n", "")],
          ("C01.3", "Circuit.usepulses"), P),
-    fire("c01-count-interpolated-directly",
-         [(GE, '            output += generate_jaqal_value(statement.iterations) + " "', '            output += f"{statement.iterations} "')],
-         ("C01.5", "direct-format"), P),
+    # behaviour-preserving now that every AnnotatedValue prints its name (fix 98732e0)
+    silent("c01-count-interpolated-directly",
+           [(GE, '            output += generate_jaqal_value(statement.iterations) + " "', '            output += f"{statement.iterations} "')], P),
+    fire("c01-parameter-str-removed",
+         [(PM, "    def __str__(self):\n        return self.name\n\n    def __eq__(self, other):\n        try:\n            return self.name == other.name and self.kind == other.kind", "    def __eq__(self, other):\n        try:\n            return self.name == other.name and self.kind == other.kind")],
+         ("C01.2", "make_item_name"), P),
+    fire("c01-count-depends-on-constant-value",
+         [(GE, "        if statement.iterations != 1:", '        if getattr(statement.iterations, "value", statement.iterations) != 1:')],
+         ("C01.6", "reads-constant-value"), P),
     silent("c01-repr-instead-of-str", [(GE, "        text = str(val)\n", "        text = repr(val)\n")], P),
     silent("c01-number-regex-equivalent",
            [(SL, 'NUMBER = r"[-+]?[0-9]*\\.[0-9]+([eE][-+]?[0-9]+)?"', 'NUMBER = r"[+-]?\\d*\\.\\d+(?:[eE][+-]?\\d+)?"')], P),
